@@ -220,6 +220,64 @@ pub proof fn lemma_pow2_pos(a: nat) ensures pow2(a) > 0 decreases a { if a > 0 {
             assert forall|n: nat| 0int / #[trigger] pow2(n) == 0 by { lemma_pow2_pos(n); assert(0int / pow2(n) == 0) by (nonlinear_arith) requires pow2(n) > 0; }
         }
 //@ end
+
+/// YP SAR: arithmetic right shift of the two's-complement reading (floor division by 2^shift; all sign bits for shift >= 256)
+pub open spec fn yp_sar(shift: int, x: int) -> int { uval(sval(x) / pow2((if shift >= 256 { 256 } else { shift }) as nat)) }
+pub proof fn lemma_pow2_256() ensures pow2(256) == p256(), pow2(32) == 0x1_0000_0000
+{
+    assert(pow2(64) == p64()) by (compute);
+    lemma_pow2_add(64, 64); lemma_pow2_add(128, 128);
+    assert(pow2(32) == 0x1_0000_0000) by (compute);
+}
+pub proof fn lemma_pow2_add(a: nat, b: nat) ensures pow2(a + b) == pow2(a) * pow2(b) decreases b
+{
+    if b == 0 { assert(pow2(a) * 1 == pow2(a)); } else {
+        lemma_pow2_add(a, (b - 1) as nat);
+        assert(pow2(a + b) == 2 * pow2((a + b - 1) as nat));
+        assert(2 * (pow2(a) * pow2((b - 1) as nat)) == pow2(a) * (2 * pow2((b - 1) as nat))) by (nonlinear_arith);
+    }
+}
+/// floor(-n / d) == -(floor((n-1)/d) + 1) for n >= 1, d >= 1
+pub proof fn lemma_neg_floor(n: int, d: int)
+    requires n >= 1, d >= 1
+    ensures (-n) / d == -((n - 1) / d) - 1
+{
+    let q = (n - 1) / d;
+    let r = (n - 1) % d;
+    assert(n - 1 == d * q + r && 0 <= r < d) by (nonlinear_arith) requires q == (n - 1) / d, r == (n - 1) % d, d >= 1;
+    // -n = d * (-q - 1) + (d - 1 - r), with 0 <= d - 1 - r < d
+    assert(-n == (-q - 1) * d + (d - 1 - r)) by (nonlinear_arith) requires n - 1 == d * q + r;
+    vstd::arithmetic::div_mod::lemma_fundamental_div_mod_converse(-n, d, -q - 1, d - 1 - r);
+}
+//@ fn actors/evm/src/interpreter/instructions/bitwise.rs sar
+    ensures r@ == yp_sar(shift@, value@),
+//@ entry
+        proof {
+            lemma_consts(); lemma_pow2_256();
+            let x = value@;
+            if x >= p255() {
+                // negative: n = |x|, 1 <= n <= 2^255
+                let n = p256() - x;
+                let s: nat = (if shift@ >= 256 { 256 } else { shift@ }) as nat;
+                lemma_pow2_pos(s);
+                lemma_neg_floor(n, pow2(s));
+                assert((n - 1) / pow2(s) >= 0) by (nonlinear_arith) requires n >= 1, pow2(s) > 0;
+                assert((n - 1) / pow2(s) <= n - 1) by (nonlinear_arith) requires n >= 1, pow2(s) > 0;
+                if shift@ >= 256 {
+                    assert((n - 1) / p256() == 0) by (nonlinear_arith) requires 0 <= n - 1 < p256();
+                }
+                vstd::arithmetic::div_mod::lemma_small_mod((n - 1) as nat, p256() as nat);
+                vstd::arithmetic::div_mod::lemma_small_mod(((n - 1) / pow2(s) + 1) as nat, p256() as nat);
+            } else {
+                let s: nat = (if shift@ >= 256 { 256 } else { shift@ }) as nat;
+                lemma_pow2_pos(s);
+                assert(x / pow2(s) >= 0) by (nonlinear_arith) requires x >= 0, pow2(s) > 0;
+                assert(x / pow2(s) <= x) by (nonlinear_arith) requires x >= 0, pow2(s) > 0;
+                if shift@ >= 256 { assert(x / p256() == 0) by (nonlinear_arith) requires 0 <= x < p256(); }
+            }
+            if shift@ < 256 { vstd::arithmetic::div_mod::lemma_small_mod(shift@ as nat, 0x1_0000_0000nat); }
+        }
+//@ end
 //@ fn actors/evm/src/interpreter/instructions/bitwise.rs clz
     ensures r@ == 256 - bits_spec(value@),      // EIP-7939: leading zero bits, 256 for zero
 //@ entry
